@@ -330,7 +330,11 @@ func Run(cs Case, c *vrt.Ctx) {
 	var v any
 	var rv reflect.Value
 	if cs.Named > 0 {
-		v = tyx.Catalogue(cs.Named - 1)
+		if cs.Named > tyx.CatalogueSize {
+			v = tyx.EncodeOnly(cs.Named - 1 - tyx.CatalogueSize)
+		} else {
+			v = tyx.Catalogue(cs.Named - 1)
+		}
 		rv = reflect.ValueOf(v)
 		if cs.Ptr && rv.Kind() == reflect.Struct {
 			// addressable: the encoders then read fields through unsafe offsets
@@ -643,7 +647,7 @@ func drawCase(t *rapid.T) Case {
 		Ptr:    rapid.Bool().Draw(t, "ptr"),
 	}
 	if rapid.IntRange(0, 4).Draw(t, "named") == 0 {
-		cs.Named = rapid.IntRange(1, tyx.CatalogueSize).Draw(t, "catalogue")
+		cs.Named = rapid.IntRange(1, tyx.CatalogueSize+tyx.EncodeOnlySize).Draw(t, "catalogue")
 		return cs
 	}
 	cs.Type = tyx.DrawType(t, 2)
